@@ -65,6 +65,30 @@ add('C15',
     CORR_NOTE + "Rounding of x-min+1 itself in float32 (up to 2^25+1) is outside the theorem and inside the property's 'to float32 rounding' allowance.",
     "Coq proof (by computation on the dtype model) + correspondence + dtype sweep oracle", "5/C15")
 
+MASK_NOTE = BASE_NOTE + ("sqrt/arctan2 are not modelled: the masks are modelled as functions of the per-pixel radius and evaluated in exact rational arithmetic on "
+    "radius maps produced by polar_map for the centre the harness chooses (shape//2); float round-off of the implementation is compared with 1e-9 absolute tolerance. ")
+add('C16',
+    "Coq theorems: UserTemplate pad/crop aligns source pixel s//2 with target pixel t//2 and preserves values for ALL s,t >= 1 (old rule refuted with witness, "
+    "proved right for the other parity classes); radial masks are cyclically point symmetric about shape//2 for every shape; default radial map of "
+    "RadialGradientBackgroundSubtraction pixel centred and wide enough; crop size = ceil(search); guards; values in range; background subtraction balanced. "
+    "Tie: generated before/after arithmetic = model (G), exhaustive index maps vs UserTemplate.get_mask, built-in masks vs the exact-rational model at sampled pixels.",
+    MASK_NOTE + "BackgroundSubtraction with a requested shape so small that the balancing ring lies entirely outside it gives 0/0 (premise 'ring sum != 0' of the "
+    "balance theorem; cannot occur for (2*crop_size)^2 masks): excluded by the oracle, see DESIGN.md section 6. 'Background-subtracting' is read as BackgroundSubtraction; "
+    "RadialGradientBackgroundSubtraction documents a fixed -1 ring and is not checked for zero sum.",
+    "Coq proof (lia/nia with floor division, Q field) + generated-layer bridge + exhaustive correspondence + oracle", "5/C16")
+add('C18',
+    "Coq theorems over Q for every number of bins, width >= 1, inner radius and radius value (hence every centre, image size, pixel): telescoping sum, exactly 1 "
+    "inside / exactly 0 outside / within [0,1] everywhere, ring + disk = disk, centre patch only at r < 1/2 and patched sum 1 - ri, normalised bins sum to 1. "
+    "Tie: the model in exact rationals on the implementation's own polar_map radii at sampled pixels incl. the nearest-to-centre pixel, dense and sparse.",
+    MASK_NOTE + "'total approximates pi r^2 within the perimeter' is a lattice-point estimate: sampled only.",
+    "Coq proof (lra case analysis over clip/abs, induction on the number of bins) + exact-rational correspondence + oracle", "5/C18")
+add('C19',
+    "Coq theorems: densified COO stack = sum of clipped stamps per layer for every template, image, placement list (any order/offsets); empty when outside; "
+    "feature-vector centre on the peak; circular stack = dense sharp disk (bounding box cuts nothing, for every radius p/q). Tie: coo_entries/todense under "
+    "vm_compute vs sparse_template_multi_stack().todense() on small exhaustive-style inputs; disk template vs model.",
+    BASE_NOTE + "sparse.COO is modelled as a coordinate list whose duplicates add when densified.",
+    "Coq proof (sum-of-indicator lemma, induction over placements, nia) + vm_compute correspondence + exhaustive oracle", "5/C19")
+
 NOT_YET = "check not built yet in this round (work in progress; design in DESIGN.md section 5)"
 
 def main():
